@@ -188,6 +188,24 @@ func corr(args []string) {
 			dist[fmt.Sprintf("jsonedits:%d", len(c.Edits))]++
 		}
 	}
+	// request lists against the HTTP handler
+	for i := 0; i < *n*2; i++ {
+		c := randomHTTPCase(r)
+		v, shapes := runHTTP(c.Reqs)
+		id++
+		cases.Printf("%d %s HTTP %s # %s\n", id, v.res, encodeReqs(c.Reqs), shapes)
+		impl.Printf("%d %s\n", id, v.res)
+		b, _ := json.Marshal(struct {
+			ID int `json:"id"`
+			httpCase
+			Ops   []string `json:"ops"`
+			Impl  string   `json:"impl"`
+			Frame string   `json:"frame,omitempty"`
+		}{id, c, []string{"HTTP"}, v.res, v.frame})
+		meta.Printf("%s\n", b)
+		dist["http:"+v.res]++
+		dist["route:"+c.Reqs[len(c.Reqs)-1].Route]++
+	}
 	cases.Close()
 	impl.Close()
 	meta.Close()
@@ -213,6 +231,25 @@ func replay(args []string) {
 		} `json:"input"`
 	}
 	_ = json.Unmarshal(b, &probe)
+	isHTTP := (len(probe.Ops) == 1 && probe.Ops[0] == "HTTP") || (probe.Input != nil && len(probe.Input.Ops) == 1 && probe.Input.Ops[0] == "HTTP")
+	if isHTTP {
+		var hc httpCase
+		if probe.Input != nil {
+			var w struct {
+				Input httpCase `json:"input"`
+			}
+			_ = json.Unmarshal(b, &w)
+			hc = w.Input
+		} else {
+			_ = json.Unmarshal(b, &hc)
+		}
+		v, shapes := runHTTP(hc.Reqs)
+		fmt.Printf("requests: %s\nverdict : %s %s %s\nstored  : %s\n", encodeReqs(hc.Reqs), v.res, v.frame, v.what, shapes)
+		if v.res == "PANIC" {
+			os.Exit(1)
+		}
+		return
+	}
 	if (len(probe.Ops) == 1 && probe.Ops[0] == "FromJSON") || (probe.Input != nil && len(probe.Input.Ops) == 1 && probe.Input.Ops[0] == "FromJSON") {
 		var jc jsonCase
 		if probe.Input != nil {
